@@ -416,6 +416,40 @@ fn dead_branch_templates(rep: &mut Report) {
     }
 }
 
+/// C06: a function value captures the values its free names have *when it is created* - each creation anew, also when two
+/// creations see environments that compare equal but are different values (signed zeros, equal arrays of different
+/// stored element type, equal-looking cells), and when the same literal is evaluated many times in a row
+fn closure_creation_templates(rep: &mut Report) {
+    let cases: [(&str, &str); 14] = [
+        ("mk := (x: float) -> () -> float { return () -> float { return 1.0 / x } }; (mk(0.0)(), mk(1.0)(), mk(-0.0)(), mk(0.0)(), mk(-0.0)())", "(inff, 1.0f, -inff, inff, -inff)"),
+        ("mk := (x: float) -> () -> float { return () -> float { return 1.0 / x } }; a := mk(0.0); b := mk(-0.0); c := mk(0.0); (a(), b(), c(), b())", "(inff, -inff, inff, -inff)"),
+        ("mk := (x: [int]|[float]) -> () -> int { return () -> int { if a: [int] = x { return 1 } return 2 } }; (mk([1; 0])(), mk([0.5; 0])(), mk([1; 0])(), mk([0.5; 0])())", "(1, 2, 1, 2)"),
+        ("mk := (x: any) -> () -> any { return () -> any { return x } }; (mk(0.0)(), mk(-0.0)(), mk(0)(), mk(false)(), mk(\"\")(), mk(())())", "(0.0f, -0.0f, 0, false, \"\", ())"),
+        ("mk := (x: int) -> () -> int { return () -> int { return x * 2 } }; fs := [1, 2, 1, 3, 1]~ @ mk $]; [fs[0](), fs[1](), fs[2](), fs[3](), fs[4]()]", "[2, 4, 2, 6, 2]"),
+        ("fs := mut [() -> int] []; for i in [1, 2, 3]~ { fs += [() -> int { return i * 10 }]; }; g := *fs; [g[0](), g[1](), g[2]()]", "[10, 20, 30]"),
+        ("mk := (c: mut int) -> () -> int { return () -> int { c += 1; return *c } }; a := mut 0; b := mut 0; f := mk(a); g := mk(b); h := mk(a); (f(), g(), h(), f(), g(), *a, *b)", "(1, 1, 2, 3, 2, 3, 2)"),
+        ("mk := (x: (float, int)) -> () -> float { return () -> float { return 1.0 / x.0 } }; (mk((0.0, 1))(), mk((-0.0, 1))(), mk((0.0, 1))())", "(inff, -inff, inff)"),
+        ("mk := (x: struct{v: float}) -> () -> float { return () -> float { return 1.0 / x.v } }; (mk(struct{v := 0.0})(), mk(struct{v := -0.0})(), mk(struct{v := 0.0})())", "(inff, -inff, inff)"),
+        ("mk := (x: [float]) -> () -> float { return () -> float { return 1.0 / x[0] } }; (mk([0.0])(), mk([-0.0])(), mk([0.0])())", "(inff, -inff, inff)"),
+        ("x := 0.0; f := () -> float { return 1.0 / x }; x := -0.0; g := () -> float { return 1.0 / x }; x := 0.0; h := () -> float { return 1.0 / x }; (f(), g(), h())", "(inff, -inff, inff)"),
+        ("mk := (x: float, y: float) -> () -> float { return () -> float { return 1.0 / x + y } }; (mk(0.0, 1.0)(), mk(-0.0, 1.0)(), mk(0.0, 2.0)(), mk(0.0, 1.0)())", "(inff, -inff, inff, inff)"),
+        ("outer := (k: int) -> (float) -> () -> float { return (x: float) -> () -> float { return () -> float { return 1.0 / x + [0.0, 0.0, 0.0][k] } } }; m := outer(1); (m(0.0)(), m(-0.0)(), outer(2)(0.0)(), m(0.0)())", "(inff, -inff, inff, inff)"),
+        ("mk := (x: int|float) -> () -> int { return () -> int { return match x { a: int => 1, b: float => 2, } } }; (mk(1)(), mk(1.0)(), mk(1)(), mk(1.0)())", "(1, 2, 1, 2)"),
+    ];
+    for (src, want) in cases {
+        rep.evaluations += 1;
+        rep.count("closure-creation-templates");
+        let run = run_real(src, FUEL);
+        let got = match &run.outcome {
+            Outcome::Value(v) => canon(v),
+            other => other.tag(),
+        };
+        if got != want {
+            rep.violation(&format!("c06:closure-creation-template:{}", truncate(src, 60)), &format!("`{src}` gave {got}, expected {want} (each function value captures the values of its own creation)"), "diff", &format!("#template {want}\n{src}\n"));
+        }
+    }
+}
+
 pub fn run(cfg: &Cfg, rep: &mut Report, spec: &Spec) {
     let deadline = Deadline::new(cfg.budget_s);
     if spec.prop == "C07" && cfg.shard == 0 {
@@ -426,6 +460,9 @@ pub fn run(cfg: &Cfg, rep: &mut Report, spec: &Spec) {
     }
     if spec.prop == "C13" && cfg.shard == 0 {
         cell_negative_templates(rep);
+    }
+    if spec.prop == "C06" && cfg.shard == 0 {
+        closure_creation_templates(rep);
     }
     if spec.prop == "C11" {
         crate::props::c11seq::run(cfg, rep);
